@@ -199,7 +199,7 @@ def run_lle(case, rec):
             #    polishing it: within the configured tolerance (f_tol / tol = 1e-6) the optimiser stopped where it was told to, although the
             #    activities (of components that barely move the objective) still differ; beyond it the optimiser stopped early.
             frac = L / (l + L + 1e-300)
-            if any(flows[k_] > 0 and abs(frac[k_] - 0.5) <= 1e-9 for k_ in range(len(ids))): sfx = '/component-left-at-midpoint'
+            if any(flows[k_] > 0 and abs(frac[k_] - 0.5) <= 1e-6 for k_ in range(len(ids))): sfx = '/component-left-at-midpoint'
             else:
                 gap = gibbs_gap(th, ids, flows / F, L / F, T)
                 rec.hit('gibbs-gap-evaluated')
